@@ -753,13 +753,18 @@ func bucket(n int) string {
 // link implements iso7816.Transceiver.  hook is called with the bytes the
 // library hands to the reader and returns the bytes "received".
 type link struct {
-	hook func(capdu []byte) []byte
-	sent int
+	hook  func(capdu []byte) []byte
+	sent  int
+	naked int // data-less responses (status word only) delivered so far: the input class of F14
 }
 
 func (l *link) Transceive(cla, ins, p1, p2 int, data []byte, le int, encoded []byte) []byte {
 	l.sent++
-	return l.hook(encoded)
+	r := l.hook(encoded)
+	if len(r) == 2 {
+		l.naked++
+	}
+	return r
 }
 
 type world struct {
@@ -997,11 +1002,14 @@ func (w *world) continuedExchange(label string, prev present, prevErr bool) (del
 			}
 			if bytes.Equal(e.ctr, expectCtr) {
 				// an earlier genuine response authenticated under exactly the counter the
-				// library now expects: only possible after the counter was stepped back (F14)
-				if w.f14open {
+				// library now expects: only possible after the counter was stepped back.
+				// F14 covers the rewind caused by a data-less response and nothing else:
+				// if no such response was delivered in this session the replay must be refused.
+				if w.f14open && w.lk.naked > 0 {
 					evid.Excluded(f14)
 					continue
 				}
+				evid.Count("continued-replay-under-expected-counter", 1)
 				cands = append(cands, mk("later-replay-rewound", i, e.rsp, true))
 				continue
 			}
